@@ -412,6 +412,7 @@ def run(ctx, rep):
         allowed_new_callers={"bytecode::stack::Stack::register_variable_local", "bytecode::instruction::implementations::export_special"})
     queue_drained(F, rep)
     module_identity(F, rep)
+    names_import_shares(F, rep)
 
 
 def rules_fn_arg(fn, op):
@@ -586,3 +587,28 @@ def module_identity(F, rep):
         rep.ob("C11.module-identity", "the `%s` path feature cannot be spelled (an earlier alternative of path_feature always matches first)" % lit, "exempt",
                "shadowed in the PEG ordered choice; if the grammar is reordered this becomes an obligation", pf.span, fn=pf.path,
                key="C11.module-identity|shadowed|%s" % lit)
+
+
+
+def names_import_shares(F, rep):
+    """`import xs from m` gives the importer the module's own value: for a list, a map or an object that is the same container (a Gc pointer
+    copy), so what any importer or the module itself changes in place is seen by all.  In the handler split_lookup_store the value handed to
+    register_variable_local comes from the export's cell through `PrimitiveFlagsPair::primitive` and `Clone::clone` only - no container is
+    built on the way (`vector!`, `to_vec`, `GcVector::new`, a `Primitive::Vector(..)` literal)."""
+    h = F.fn("bytecode::instruction::implementations::split_lookup_store")
+    if h is None:
+        raise AnchorMissing("implementations::split_lookup_store")
+    regs = h.calls_to("bytecode::context::Ctx::register_variable_local")
+    rep.floor("C11.shared-instance registrations in split_lookup_store", len(regs), 1)
+    thr = rules.TRANSPARENT | {"core::clone::Clone::clone", "core::ops::deref::Deref::deref"}
+    for i, c in enumerate(regs):
+        l = op_local(c.args[2]) if len(c.args) > 2 else None
+        org = rules.origins(h, l, transparent=thr) if l is not None else set()
+        calls_ = rules.origin_calls(h, l, transparent=thr) if l is not None else []
+        built = sorted(str(o) for o in org if o[0] in ("agg", "const", "other"))
+        foreign = sorted({mir.short(x.callee()) for x in calls_ if not x.matches(("bytecode::stack::PrimitiveFlagsPair::primitive",))})
+        ok = bool(calls_) and not built and not foreign
+        rep.ob("C11.shared-instance", "`import a from m` binds the module's own value (pointer copy), not a container built for the importer",
+               "ok" if ok else "violated",
+               "" if ok else "the registered value also comes from %s: an exported list is handed over as a private copy and later in-place changes are not shared"
+               % (built + foreign), c.span, fn=h.path, key="C11.shared-instance|names-import|#%d" % i)
